@@ -586,6 +586,28 @@ example : asserted seRgbX (World.init (some 2) none) [.dims 0 0 0 3 2 7, .copy 1
   · refine ⟨?_, ?_, ?_⟩ <;> first | (unfold DB Bound; omega) | (intro W H a h; exact ⟨h.1, h.2.1, by unfold Bound; omega⟩)
   · trivial
 
+/-- AT EVERY POINT of every history (hypotheses of C10_history): the allocations that are live according to the replay of the PRINTED allocator log
+    are exactly the blocks owned by the images -- nothing is leaked mid-history, nothing an image holds has been released; and the owner is unique -/
+theorem C10_log_live_iff_owned (c : Cfg) (hsafe : SwapSafe c) (fa fc : Option Nat) (ops : List Op)
+    (hok : RecreateOKRun c (World.init fa fc) ops) (b : Nat) (g : GBlock)
+    (hg : (ghostReplay (run c (World.init fa fc) ops).log.reverse)[b]? = some g) :
+    (g.freed = 0 ↔ ∃ s i, (run c (World.init fa fc) ops).imgs s = some i ∧ i.mem = some b) ∧
+    (∀ s s' i i', (run c (World.init fa fc) ops).imgs s = some i → (run c (World.init fa fc) ops).imgs s' = some i' →
+        i.mem = some b → i'.mem = some b → s = s') := by
+  have hinv := C10_history c hsafe ops (World.init fa fc) (C10_init c fa fc) rfl hok
+  have hl := C10_heap_is_log_replay c fa fc ops
+  rw [← hl, List.getElem?_map] at hg
+  cases hb : (run c (World.init fa fc) ops).heap[b]? with
+  | none => rw [hb] at hg; cases hg
+  | some blk =>
+    rw [hb] at hg
+    have hgb : g = blk.strip := by simpa using hg.symm
+    refine ⟨⟨fun h0 => hinv.noleak b blk hb (by rw [hgb] at h0; exact h0), ?_⟩, fun s s' i i' hs hs' hm hm' => hinv.unique s s' i i' b hs hs' hm hm'⟩
+    rintro ⟨s, i, hs, hm⟩
+    obtain ⟨blk', hb', hf, -⟩ := hinv.owned s i b hs hm
+    rw [hb] at hb'; cases hb'
+    rw [hgb]; exact hf
+
 /-! ### recreate: dimensions, alignment of the view, reuse of storage -/
 
 /-- The reuse branch of recreate (`stepRec` takes it exactly when `_allocated_bytes ≥ total_allocated_size_in_bytes(dims)` under the
@@ -959,6 +981,32 @@ theorem C10_ctor_throw_releases (c : Cfg) (o : Org) (w : World) (s : Nat) (img0 
 example : (pCtor { pocma := false, pocs := false, empty := true, ntags := 0, ndebug := false, org := { mstep := 4, b2m := 1, chans := 1, planar := false, nontrivial := true, pixel := false }, porg := none }
              { mstep := 4, b2m := 1, chans := 1, planar := false, nontrivial := true, pixel := false } (World.init none (some 3)) 0 (Img.fresh 0 0) 3 2 (List.replicate 6 5) none).2 = .ctorThrow := by
   decide +kernel
+
+/-- move construction, swap and write never touch an allocator: no block changes, no event is logged, no element is constructed or destroyed
+    (storage changes hands, it is not reallocated) -- for every configuration, also the out-of-contract ones -/
+theorem C10_move_swap_no_allocator_event (c : Cfg) (w : World) (s s2 x y v : Nat) :
+    ((step c w (.move s s2)).1.log = w.log ∧ (step c w (.move s s2)).1.heap = w.heap
+      ∧ (step c w (.move s s2)).1.ctor = w.ctor ∧ (step c w (.move s s2)).1.dtor = w.dtor) ∧
+    ((step c w (.swap s s2)).1.log = w.log ∧ (step c w (.swap s s2)).1.heap = w.heap
+      ∧ (step c w (.swap s s2)).1.ctor = w.ctor ∧ (step c w (.swap s s2)).1.dtor = w.dtor) ∧
+    ((step c w (.write s x y v)).1.log = w.log ∧ (step c w (.write s x y v)).1.heap = w.heap
+      ∧ (step c w (.write s x y v)).1.ctor = w.ctor ∧ (step c w (.write s x y v)).1.dtor = w.dtor) := by
+  refine ⟨?_, ?_, ?_⟩
+  · simp only [step]; split
+    · split <;> exact ⟨rfl, rfl, rfl, rfl⟩
+    · exact ⟨rfl, rfl, rfl, rfl⟩
+  · simp only [step]; split
+    · split
+      · unfold pSwap; split
+        · split
+          · exact ⟨rfl, rfl, rfl, rfl⟩
+          · split <;> exact ⟨rfl, rfl, rfl, rfl⟩
+        · exact ⟨rfl, rfl, rfl, rfl⟩
+      · exact ⟨rfl, rfl, rfl, rfl⟩
+    · exact ⟨rfl, rfl, rfl, rfl⟩
+  · simp only [step]; split
+    · split <;> exact ⟨rfl, rfl, rfl, rfl⟩
+    · exact ⟨rfl, rfl, rfl, rfl⟩
 
 /-! ### create_view: the view lies inside the allocation -/
 
